@@ -209,20 +209,21 @@ deriving DecidableEq, Repr, Inhabited
 
 abbrev ResTable (α : Type) := List ((RKind × Nat) × α)
 
-def resGet {α : Type} (t : ResTable α) (k : RKind) (name : Nat) : Option α :=
-  (t.find? (fun p => p.1.1 = k ∧ p.1.2 = name)).map (·.2)
+def resGet {α : Type} : ResTable α → RKind → Nat → Option α
+  | [], _, _ => none
+  | ((k', n'), v) :: t, k, n => if k' = k ∧ n' = n then some v else resGet t k n
 
 structure PageM where
   ops : List OpM
   res : ResTable Entry
   /-- references of `metadata`, `lgi`, `vp`, `other`, in that order -/
   rest : List Edge
-deriving Repr, Inhabited
+deriving DecidableEq, Repr, Inhabited
 
 structure PageOut where
   res : ResTable (Nat × List Nat)
   rest : List Nat
-deriving Repr, Inhabited
+deriving DecidableEq, Repr, Inhabited
 
 /-- `deep_clone_op`: the new resource table is threaded through; operations themselves keep their names -/
 def cloneOp (f : Nat) (src : Src) (old : ResTable Entry) (op : OpM) (s : ResTable (Nat × List Nat) × St) :
@@ -267,6 +268,14 @@ def clonePage (f : Nat) (src : Src) (p : PageM) (st : St) : Out PageOut × St :=
   | .err => (.err, (cloneOps f src p.res p.ops st).2.2)
   | .panic => (.panic, (cloneOps f src p.res p.ops st).2.2)
   | .oof => (.oof, (cloneOps f src p.res p.ops st).2.2)
+
+/-- several pages imported through one importer, in order; a page that fails is skipped -/
+def clonePages (f : Nat) (src : Src) : List PageM → St → List (Out PageOut) × St
+  | [], st => ([], st)
+  | p :: ps, st =>
+    let r := clonePage f src p st
+    let rs := clonePages f src ps r.2
+    (r.1 :: rs.1, rs.2)
 
 /-! ### the code before the fixes (regression statements only) -/
 
